@@ -132,6 +132,37 @@ def diff_qloop(ctx, rng):
                          "; ".join("(%d, %d, %d)" % c[1:] for c in cases), timeout=600)
     if vals is None:
         return {"error": "model evaluation failed: " + msg}
+    # queue-loop cursors: one worker alone (chunked / guided / factored), claim chain against Loops.Model.run_alone
+    gc = []
+    for _ in range(400):
+        fl = rng.below(3)
+        a = rng.choice([0, 0, 1, 7, rng.range(0, 50)])
+        n = rng.choice([0, 1, 2, 3, 5, 8, 17, 64, 100, rng.range(0, 160)])
+        sh = rng.choice([1, 2, 3, 4, 7, 8, 16])
+        ch = rng.choice([1, 1, 2, 3, 5, 8, 50])
+        nw = rng.choice([1, 2, 2, 4, 8])
+        gc.append((fl, a, a + n, sh, ch, nw))
+    glines = ["G %d %d %d %d %d %d" % c for c in gc]
+    rcg, gout, gerr = core.run_lines(exe, glines + ["Q"], timeout=120)
+    if rcg != 0 or len(gout) != len(glines):
+        k = min(len(gout), len(glines) - 1)
+        return {"kernel": "qqloop_get_iterations_*", "input": glines[k], "c_result": "the C code crashed / hung (rc=%s)" % rcg, "model_result": "defined"}
+    FL = ["CHUNK", "GUIDED", "FACTORED"]
+    gv, gmsg = coq_eval(ctx, "From QV Require Import Loops.Model.",
+                        "map (fun s => (Z.of_nat (length (s_out s)), map snd (s_out s))) [%s]" % "; ".join(
+                            "run_alone (mkP %s %d %d %d %d 1) 5000 (init (mkP %s %d %d %d %d 1) %d [0] 1)" % (
+                                FL[c[0]], c[2], c[5], c[3], c[4], FL[c[0]], c[2], c[5], c[3], c[4], c[1]) for c in gc) + "%Z", timeout=600)
+    if gv is None:
+        return {"error": "model evaluation failed: " + gmsg}
+    pos = 0
+    for ln, o in zip(glines, gout):
+        n = gv[pos]
+        prs = gv[pos + 1: pos + 1 + 2 * n]
+        pos += 1 + 2 * n
+        m = "g %d" % n + "".join(" %d:%d" % (prs[2 * i], prs[2 * i + 1]) for i in range(n))
+        if o != m:
+            return {"kernel": "qqloop_get_iterations_%s, one worker alone until it returns 0: flavour start stop activesheps chunksize "
+                              "num_workers; result = the ranges handed out" % FL[int(ln.split()[1])].lower(), "input": ln, "c_result": o[:400], "model_result": m[:400]}
     pos = 0
     for ln, c, o in zip(lines, cases, out):
         mw = vals[pos]
